@@ -464,7 +464,8 @@ func ruleC12Hooks(cx *Ctx) {
 						a.check(name+" failed load: no expiry hook", count("ExpireAfterCreate")+count("ExpireAfterUpdate")+count("ExpireAfterRead") == 0 && len(eventsOf(o, "SetExpiresAt", c.enter, c.exitIdx)) == 0, "a failed (re)load leaves the entry's expiry untouched", fmt.Sprint(calcs), o)
 						isRefresh, rk := predOf(o, "load(param:cl.isRefresh)")
 						curNil, nk := predOf(o, "IsNil("+c.cur+")")
-						if wrk && wr && rk && isRefresh && nk && !curNil {
+						nf, nfk := predOf(o, "load(param:cl.isNotFound)")
+						if wrk && wr && rk && isRefresh && nk && !curNil && nfk && !nf {
 							a.check(name+" failed reload: failure hook", count("RefreshAfterReloadFailure") == 1, "a failed reload of a present entry consults RefreshAfterReloadFailure once", fmt.Sprint(calcs), o)
 						}
 					}
